@@ -2,6 +2,7 @@
 package c06
 
 import (
+	"errors"
 	"bytes"
 	"fmt"
 	"io"
@@ -31,6 +32,23 @@ type Case struct {
 	Family string `json:"family"`
 	// Src: sizes of the pieces in which the compressed stream reaches the Reader (nil: all at once)
 	Src []int `json:"src,omitempty"`
+	// Prelude > 0: before the case, another compressor in the same process is fed Prelude incompressible bytes
+	// and its sink fails after PreludeFail bytes (a connection that drops while a message is being compressed
+	// for it); that Writer's Close reports the error. The case itself must be unaffected.
+	Prelude     int `json:"prelude,omitempty"`
+	PreludeFail int `json:"prelude_fail,omitempty"`
+}
+
+type failingSink struct{ left int }
+
+func (f *failingSink) Write(p []byte) (int, error) {
+	if len(p) > f.left {
+		n := f.left
+		f.left = 0
+		return n, errors.New("sink failed (injected)")
+	}
+	f.left -= len(p)
+	return len(p), nil
 }
 
 func (c Case) sample() any {
@@ -133,6 +151,16 @@ func run(c Case) (sig, msg string, nW, nR int) {
 	var oneShot, chunked, back []byte
 	psig, pmsg := harness.Catch(func() {
 		var err error
+		if c.Prelude > 0 {
+			w := lzhuf.NewWriter(&failingSink{left: c.PreludeFail}, c.B2)
+			sm := gen.NewSM(uint64(c.Prelude)*7919 + uint64(c.PreludeFail))
+			junk := make([]byte, c.Prelude)
+			for i := range junk {
+				junk[i] = byte(sm.Next())
+			}
+			w.Write(junk)
+			w.Close() // fails; nothing of it may leak into later compressors
+		}
 		oneShot, _, err = compress(c.Input, []int{1 << 30}, c.B2)
 		if err != nil {
 			sig, msg = "compress-error", err.Error()
@@ -177,6 +205,12 @@ func firstDiff(a, b []byte) int {
 func account(c Case, nW, nR int) {
 	harness.Eval()
 	harness.Label("family:" + c.Family)
+	if c.Prelude > 0 {
+		harness.Label("history:earlier-compressor-whose-sink-failed")
+	}
+	if len(c.Src) > 0 {
+		harness.Label("source:delivered-in-pieces")
+	}
 	if len(c.Input) > 0 && (nW > 1 || nR > 1) {
 		harness.NonTrivial(harness.Hash(c.Input, c.Writes, c.Reads, c.B2))
 		harness.Label("nontrivial")
@@ -219,6 +253,10 @@ func TestProp(t *testing.T) {
 	rapid.Check(t, func(t *rapid.T) {
 		in, fam := gen.Bytes(t, max)
 		c := Case{Input: in, Family: fam, Writes: gen.Schedule(t, "writes"), Reads: gen.Schedule(t, "reads"), B2: rapid.Bool().Draw(t, "b2"), Src: gen.SourceSchedule(t, "src")}
+		if rapid.IntRange(0, 9).Draw(t, "prelude") == 0 {
+			c.Prelude = rapid.SampledFrom([]int{100, 4000, 6000, 20000}).Draw(t, "prelude_n")
+			c.PreludeFail = rapid.SampledFrom([]int{0, 1, 100, 4096, 5000}).Draw(t, "prelude_fail")
+		}
 		sig, msg, nW, nR := run(c)
 		account(c, nW, nR)
 		if sig != "" {
